@@ -265,7 +265,7 @@ func init() {
 	explore.Register(&explore.Check{ID: "C17", Run: func(rc *explore.RunCtx) {
 		depth := 2
 		if !rc.Quick() {
-			depth = 4
+			depth = 3
 		}
 		rc.Set("depth_bound", depth)
 		rc.Assume = append(rc.Assume,
